@@ -8,11 +8,14 @@ package main
 
 import (
 	"context"
+	"errors"
 	"fmt"
 	"io"
 	"log"
 	"log/slog"
 	"net"
+	"strings"
+	"sync"
 	"testing"
 
 	"github.com/KafScale/platform/internal/verifkit"
@@ -21,6 +24,82 @@ import (
 	"github.com/KafScale/platform/pkg/protocol"
 	"github.com/KafScale/platform/pkg/storage"
 )
+
+// c11LoopGuard decorates the real in-memory metadata store and watches, per client request, the calls the handler
+// makes. The server handles one request at a time on the harness' single connection, so "calls since the request was
+// sent" is exact. A request during which the handler receives the same two answers from the store over and over
+// (NextOffset(topic,p) -> unknown, CreateTopic(topic) -> exists) can never finish: nothing else changes the store.
+// After c11LoopLimit repetitions the guard records the livelock and cuts it (CreateTopic returns a different
+// error), so that the run can go on; the violation is "this request would never have been answered".
+type c11LoopGuard struct {
+	metadata.Store
+	mu       sync.Mutex
+	exists   int    // CreateTopic -> ErrTopicExists since the last reset
+	unknown  int    // NextOffset -> ErrUnknownTopic since the last reset
+	lastNext string // args of the last NextOffset that failed
+	lastCT   string
+	sameArgs bool
+	tripped  []string
+}
+
+const c11LoopLimit = 2000
+
+var errC11LoopCut = errors.New("verif: livelock cut by the harness")
+
+func (g *c11LoopGuard) reset() {
+	g.mu.Lock()
+	g.exists, g.unknown, g.lastNext, g.lastCT, g.sameArgs = 0, 0, "", "", true
+	g.mu.Unlock()
+}
+
+func (g *c11LoopGuard) takeTrips() []string {
+	g.mu.Lock()
+	defer g.mu.Unlock()
+	t := g.tripped
+	g.tripped = nil
+	return t
+}
+
+func (g *c11LoopGuard) NextOffset(ctx context.Context, topic string, partition int32) (int64, error) {
+	off, err := g.Store.NextOffset(ctx, topic, partition)
+	if errors.Is(err, metadata.ErrUnknownTopic) {
+		g.mu.Lock()
+		key := fmt.Sprintf("%q/%d", topic, partition)
+		if g.lastNext != "" && g.lastNext != key {
+			g.sameArgs = false
+		}
+		g.lastNext = key
+		g.unknown++
+		g.mu.Unlock()
+	}
+	return off, err
+}
+
+func (g *c11LoopGuard) CreateTopic(ctx context.Context, spec metadata.TopicSpec) (*protocol.MetadataTopic, error) {
+	t, err := g.Store.CreateTopic(ctx, spec)
+	if errors.Is(err, metadata.ErrTopicExists) {
+		g.mu.Lock()
+		if g.lastCT != "" && g.lastCT != spec.Name {
+			g.sameArgs = false
+		}
+		g.lastCT = spec.Name
+		g.exists++
+		cut := g.exists >= c11LoopLimit && g.unknown >= c11LoopLimit
+		if cut {
+			pattern := "store_call_storm"
+			if g.sameArgs {
+				pattern = "missing_partition_of_existing_topic"
+			}
+			g.tripped = append(g.tripped, fmt.Sprintf("%s: %d x [NextOffset(%s) -> unknown topic/partition, CreateTopic(%q) -> topic exists] within one request", pattern, g.exists, g.lastNext, spec.Name))
+			g.exists, g.unknown = 0, 0
+		}
+		g.mu.Unlock()
+		if cut {
+			return nil, errC11LoopCut
+		}
+	}
+	return t, err
+}
 
 // c11UnavailableStore makes handler.etcdAvailable() false: every API takes its "metadata unavailable" reply path.
 type c11UnavailableStore struct{ metadata.Store }
@@ -38,11 +117,12 @@ func c11FreeAddr(t *testing.T) (string, int) {
 }
 
 // c11StartBroker wires the broker the way main() does, minus the process-level servers.
-func c11StartBroker(t *testing.T, wrap func(metadata.Store) metadata.Store) (string, func()) {
+func c11StartBroker(t *testing.T, wrap func(metadata.Store) metadata.Store) (string, *c11LoopGuard, func()) {
 	addr, port := c11FreeAddr(t)
 	logger := slog.New(slog.NewTextHandler(io.Discard, &slog.HandlerOptions{}))
 	info := protocol.MetadataBroker{NodeID: 1, Host: "127.0.0.1", Port: int32(port)}
-	var store metadata.Store = metadata.NewInMemoryStore(metadataForBroker(info))
+	guard := &c11LoopGuard{Store: metadata.NewInMemoryStore(metadataForBroker(info)), sameArgs: true}
+	var store metadata.Store = guard
 	if wrap != nil {
 		store = wrap(store)
 	}
@@ -51,7 +131,7 @@ func c11StartBroker(t *testing.T, wrap func(metadata.Store) metadata.Store) (str
 	ctx, cancel := context.WithCancel(context.Background())
 	done := make(chan error, 1)
 	go func() { done <- srv.ListenAndServe(ctx) }()
-	return addr, func() {
+	return addr, guard, func() {
 		cancel()
 		<-done
 		h.coordinator.Stop()
@@ -64,7 +144,8 @@ func TestVerifC11Broker(t *testing.T) {
 	defer r.Finish("real cmd/broker handler behind the real broker.Server loop on loopback, three configurations (default; ACL enabled with default-deny; metadata store unavailable). The advertised table is parsed from the live ApiVersions v0 reply. For every advertised (key, version) x PRNG bodies (tame field values, existing and unknown topics/groups/member ids, valid/garbled/truncated/null record batches, null/empty/unicode client ids, boundary correlation ids) the request is sent followed by a sentinel request on the same connection: a reply frame must arrive before the sentinel's (acks=0 produce excepted), its first 4 bytes must be the correlation id, the header must have the tagged-field section iff the response version is flexible (never for ApiVersions), and kmsg.ResponseForKey(key) at that version must decode the body and re-encode it to the same bytes. Then every other version in [0, codec max+2] of every key the codec knows: no reply / closed connection is accepted, but a reply must decode at that version (KIP-511: ApiVersions may answer in v0 with UNSUPPORTED_VERSION). non-trivial = a reply with a body was received and decoded",
 		"read deadline 60 s is a watchdog only (=> inconclusive)",
 		"a connection that ends while the pipelined sentinel is unread is re-asked once without pipelining before it is judged",
-		"acks=0 produce requests always carry at least one topic (an acks=0 produce with no topics is never sent)")
+		"acks=0 produce requests always carry at least one topic (an acks=0 produce with no topics is never sent)",
+		"the metadata store is the real InMemoryStore behind a counting decorator: 2000 identical (NextOffset -> unknown, CreateTopic -> exists) answer pairs within one request prove a handler livelock (nothing else mutates the store); the decorator then cuts the loop so the run continues, and the request is reported as never answered")
 	configs := []struct {
 		name string
 		env  map[string]string
@@ -78,8 +159,22 @@ func TestVerifC11Broker(t *testing.T) {
 		for k, v := range cfg.env {
 			t.Setenv(k, v)
 		}
-		addr, stop := c11StartBroker(t, cfg.wrap)
-		c11RunMatrix(r, cfg.name, addr, i*1000000)
+		addr, guard, stop := c11StartBroker(t, cfg.wrap)
+		hooks := &c11Hooks{
+			before: guard.reset,
+			after: func(cs c11Case) {
+				for _, trip := range guard.takeTrips() {
+					cs.Detail = trip
+					class := "no_reply_handler_livelock"
+					if strings.HasPrefix(trip, "missing_partition_of_existing_topic") {
+						class = "no_reply_livelock_missing_partition"
+					}
+					r.Count("handler_livelocks_cut", 1)
+					r.Violation(class, fmt.Sprintf("%s: %s v%d (advertised=%v) would never be answered: the handler loops forever (%s)", cs.Target, cs.API, cs.Version, cs.Advertised, trip), cs)
+				}
+			},
+		}
+		c11RunMatrix(r, cfg.name, addr, i*1000000, true, []float64{1, 0.4, 0.4}[i], false, hooks)
 		stop()
 		for k := range cfg.env {
 			t.Setenv(k, "")
